@@ -1,3 +1,3 @@
-(* _client.py :: ncrypt_protect_secret :: ('callarg', '_sync_get_key', 0, 3) :  l0 *)
+(* _client.py :: ncrypt_protect_secret :: shape kernel :  _sync_get_key(... 3: l0  [= -1] ...) *)
 Definition k_onl_prot_arg3  : Z :=
-  (- 1).
+  (-1).
